@@ -1,13 +1,38 @@
 //! C10 — In-dialog requests reach their dialog once each, in CSeq order
 //!
 //! One case = one dialog (created as UAS from a peer INVITE, or as UAC through a real INVITE client
-//! transaction answered by the peer) and a script of peer events: in-dialog requests with consecutive
-//! CSeq numbers in some arrival order (with retransmissions and re-sent copies), near-miss requests,
-//! ACKs with the INVITE's CSeq, the drop of the taking usage's guard, and short waits.
+//! transaction answered by the peer), a roster of 1..3 usages registered on it, and a script of peer events.
 //!
-//! Oracle: `refmodel::ref_reorder::Reorder` (an independent reorder buffer over u64) predicts for every
-//! step which CSeq numbers the dialog's usages must see, in which order; the recording usages, the
-//! catch-all layer behind the `DialogLayer` and the wire log are compared against that step by step.
+//! What is generated
+//! * roster: usages in registration order; each one either only looks at what it is offered or takes and
+//!   answers it (at most one taking usage, registered last, so that nothing is assumed about what is offered
+//!   behind a usage that took a request). Legacy shape: [observer?], taker.
+//! * script: in-dialog requests with consecutive CSeq numbers in some arrival order (with retransmissions and
+//!   re-sent copies), near-miss requests, ACKs with the INVITE's CSeq, the drop of a usage's guard by the
+//!   application between two events (`DropGuard` = the taking usage, `DropGuardOf` = any usage), short waits,
+//!   back-to-back arrivals.
+//! * in-receive guard drops (`acts`): while usage `actor` is inside `Usage::receive` for request `on`, it drops
+//!   the guard of usage `target` - its own, that of a usage registered earlier (which has already been offered
+//!   this request) or that of a usage registered later (which has NOT been offered it yet and must not be any
+//!   more) - right after looking at the request or after its awaits (`late`), at every position of a released
+//!   batch. This is the window in which "is the usage still registered" can go stale inside ONE request.
+//!
+//! Oracle
+//! * ordering: `refmodel::ref_reorder::Reorder` (an independent reorder buffer over u64) predicts for every
+//!   step which CSeq numbers are handed on, in which order.
+//! * who is offered what: a roster walk written here from the statement (`plan`): a released request is
+//!   offered to the usages whose guard is alive at the moment it is their turn, in registration order, until
+//!   one takes it; what nobody takes gets the stack's default answer. Each usage's tape, the catch-all layer
+//!   behind the `DialogLayer` and the wire log are compared against that step by step.
+//! * guard: independent of the walk - every entry into `Usage::receive` and every guard drop gets a number
+//!   from one counter; an entry of usage u numbered after the drop of u's guard is `c10.guard/shown-after-drop`.
+//!
+//! Not asserted: what happens to requests with a CSeq not above the last one handed on; the position of
+//! copies of a CSeq that arrives with several branches; anything about usages registered behind a usage that
+//! took the request (not generated); the offer order among usages beyond "registration order" (assumption,
+//! no usage is re-registered after a drop, so the slot order of the usage table is the registration order);
+//! interleaving of overlapping deliveries with in-receive drops (scripts with `acts` have no back-to-back
+//! arrivals).
 
 use crate::engine::*;
 use crate::refmodel::ref_reorder::{Arrival, Reorder};
@@ -60,10 +85,25 @@ pub enum Ev {
     Ack { id: u8 },
     /// the application drops the guard of the taking usage
     DropGuard,
+    /// the application drops the guard of usage `usage` (position in registration order)
+    DropGuardOf { usage: u8 },
     Wait { ms: u16 },
     /// the previous and the next request arrive back to back: the stack's tasks do not get to run
     /// in between (only between Req / Near / Ack events)
     Join,
+}
+
+/// a guard drop that happens INSIDE `Usage::receive`: while usage `actor` handles request `on` it drops the
+/// guard of usage `target` (positions in registration order; actor == target: the usage ends itself)
+#[derive(Serialize, Deserialize, Clone, Copy, Debug, Hash, PartialEq, Eq)]
+pub struct Act {
+    pub on: u8,
+    pub actor: u8,
+    pub target: u8,
+    /// false: right after the actor has looked at the request; true: after its awaits (`usage_yields` /
+    /// `looker_yields` scheduling points; the taking usage has taken the request by then)
+    #[serde(default)]
+    pub late: bool,
 }
 
 #[derive(Serialize, Deserialize, Clone, Debug, Hash)]
@@ -85,6 +125,18 @@ pub struct Case {
     /// UAS role, for a request that arrives exactly once, in scripts without DropGuard / Join.
     #[serde(default)]
     pub drop_on: Option<u8>,
+    /// the dialog's usages in registration order: true = takes and answers everything it is offered, false =
+    /// only looks. At most one taking usage, and only in the last position. Empty = the legacy roster
+    /// `[looker if observer] + [taker]`.
+    #[serde(default)]
+    pub roster: Vec<bool>,
+    /// guard drops inside `receive`. Every `on` is a request that arrives exactly once and that the
+    /// reference model hands on (not one the statement is silent about); scripts with acts have no Join.
+    #[serde(default)]
+    pub acts: Vec<Act>,
+    /// how often an only-looking usage yields to the scheduler inside `receive` (scripts without Join only)
+    #[serde(default)]
+    pub looker_yields: u8,
     pub events: Vec<Ev>,
     pub rng: u8,
 }
@@ -102,24 +154,87 @@ impl Case {
     fn near_cseq(&self, idx: u8) -> u32 {
         self.cseq_of(idx).min(u32::MAX as u64) as u32
     }
+    /// the usages in registration order (true = taking)
+    fn usages(&self) -> Vec<bool> {
+        if self.roster.is_empty() {
+            let mut r = vec![];
+            if self.observer {
+                r.push(false);
+            }
+            r.push(true);
+            r
+        } else {
+            self.roster.clone()
+        }
+    }
+    fn taker(&self) -> Option<usize> {
+        self.usages().iter().position(|t| *t)
+    }
+    /// all in-receive guard drops (the legacy `drop_on` is the taking usage ending itself)
+    fn all_acts(&self) -> Vec<Act> {
+        let mut a = self.acts.clone();
+        if let (Some(d), Some(t)) = (self.drop_on, self.taker()) {
+            a.push(Act { on: d, actor: t as u8, target: t as u8, late: false });
+        }
+        a
+    }
+    fn has_join(&self) -> bool {
+        self.events.iter().any(|e| *e == Ev::Join)
+    }
+    /// requests an in-receive drop may be tied to: they arrive exactly once, and the reference model does not
+    /// classify them as "not above the last number handed on" (whether those are offered at all is not asserted,
+    /// so whether the drop happens would not be defined)
+    fn act_candidates(&self) -> Vec<u8> {
+        let mut model = Reorder::new(match self.role {
+            Role::Uas => Some(self.k as u64),
+            Role::Uac => None,
+        });
+        let mut count = vec![0usize; self.n()];
+        let mut lower = vec![false; self.n()];
+        for e in &self.events {
+            if let Ev::Req { idx, .. } = e {
+                let i = *idx as usize;
+                if i >= count.len() {
+                    continue;
+                }
+                count[i] += 1;
+                if count[i] == 1 && model.arrive(self.cseq_of(*idx)) == Arrival::Lower {
+                    lower[i] = true;
+                }
+            }
+        }
+        (0..self.n()).filter(|i| count[*i] == 1 && !lower[*i]).map(|i| i as u8).collect()
+    }
     /// generator contract: only sound cases reach the oracle
     fn valid(&self) -> bool {
         let n = self.n();
+        let usages = self.usages();
+        let m = usages.len();
+        let acts = self.all_acts();
         n <= 7
             && self.k as u64 + n as u64 <= u32::MAX as u64
             && self.methods.iter().all(|m| (*m as usize) < METHODS.len())
+            && (1..=3).contains(&m)
+            && (self.roster.is_empty() || !self.observer)
+            && usages[..m - 1].iter().all(|t| !*t)
             && self.events.iter().all(|e| match e {
                 Ev::Req { idx, gen } => (*idx as usize) < n && *gen < 4,
                 Ev::Near { idx, .. } => (*idx as usize) < n.max(1),
                 Ev::Ack { .. } => self.role == Role::Uas,
+                Ev::DropGuard => self.taker().is_some(),
+                Ev::DropGuardOf { usage } => (*usage as usize) < m,
                 _ => true,
             })
             && self.usage_yields <= 3
-            && self.drop_on.map_or(true, |d| {
-                self.role == Role::Uas
-                    && self.events.iter().filter(|e| matches!(e, Ev::Req { idx, .. } if *idx == d)).count() == 1
-                    && !self.events.iter().any(|e| matches!(e, Ev::DropGuard | Ev::Join))
-            })
+            && self.looker_yields <= 3
+            && (self.looker_yields == 0 || !self.has_join())
+            && self.drop_on.map_or(true, |_| self.taker().is_some())
+            && acts.len() <= 3
+            && (acts.is_empty() || !self.has_join())
+            && {
+                let cand = self.act_candidates();
+                acts.iter().all(|a| (a.actor as usize) < m && (a.target as usize) < m && cand.contains(&a.on))
+            }
             && (0..self.events.len()).all(|i| {
                 self.events[i] != Ev::Join
                     || (i > 0
@@ -195,6 +310,9 @@ fn perm_case(role: Role, k: u32, perm: &[u8], ordinal: usize) -> Case {
         observer: ordinal % 2 == 1,
         usage_yields: 0,
         drop_on: None,
+        roster: vec![],
+        acts: vec![],
+        looker_yields: 0,
         events,
         rng: (ordinal % 251) as u8,
     }
@@ -223,6 +341,9 @@ pub fn perm_cases(tier: Tier) -> Vec<Case> {
         observer: false,
         usage_yields: 0,
         drop_on: None,
+        roster: vec![],
+        acts: vec![],
+        looker_yields: 0,
         events: vec![Ev::Ack { id: 0 }, Ev::Near { kind: Near::ToTag, idx: 0, id: 0 }],
         rng: 0,
     });
@@ -297,6 +418,62 @@ pub fn self_drop_cases(tier: Tier) -> Vec<Case> {
     out
 }
 
+/// rosters of the `usage_drop` enumeration (false = only looks, true = takes; the taking usage is last)
+const ROSTERS: &[&[bool]] = &[&[false], &[false, false], &[false, true], &[false, false, false], &[false, false, true]];
+
+/// guard drops inside `receive` and drops of an only-looking usage's guard between two requests:
+/// * every roster of ROSTERS x every (actor, target) pair x early / late x every permutation of n <= 3
+///   (thorough 4) requests x every request the drop can be tied to x both roles;
+/// * rosters with >= 2 usages x every only-looking usage x every position of an application-side drop of its
+///   guard x every permutation of n <= 3 x both roles.
+pub fn usage_drop_cases(tier: Tier) -> Vec<Case> {
+    let mut out = vec![];
+    for role in [Role::Uas, Role::Uac] {
+        let k = if role == Role::Uas { 1 } else { 0 };
+        for n in 1..=tier.pick(3, 4) {
+            for (pi, p) in permutations(n).iter().enumerate() {
+                for (ri, roster) in ROSTERS.iter().enumerate() {
+                    let m = roster.len();
+                    let base = {
+                        let mut c = perm_case(role, k, p, pi + ri);
+                        c.observer = false;
+                        c.roster = roster.to_vec();
+                        c
+                    };
+                    let cand = base.act_candidates();
+                    for on in cand {
+                        for actor in 0..m as u8 {
+                            for target in 0..m as u8 {
+                                for late in [false, true] {
+                                    let mut c = base.clone();
+                                    c.acts = vec![Act { on, actor, target, late }];
+                                    if late {
+                                        // the drop happens behind an await of the actor
+                                        c.usage_yields = 1 + (pi % 2) as u8;
+                                        c.looker_yields = 1 + (pi % 2) as u8;
+                                    }
+                                    out.push(c);
+                                }
+                            }
+                        }
+                    }
+                    if n <= 3 && m >= 2 {
+                        let off = if role == Role::Uas { 1 } else { 0 };
+                        for usage in (0..m as u8).filter(|u| !roster[*u as usize]) {
+                            for pos in 0..=n {
+                                let mut c = base.clone();
+                                c.events.insert(off + pos, Ev::DropGuardOf { usage });
+                                out.push(c);
+                            }
+                        }
+                    }
+                }
+            }
+        }
+    }
+    out
+}
+
 #[derive(Debug, Clone)]
 struct IdxSpec {
     copies: u8,
@@ -316,11 +493,37 @@ pub fn strategy() -> BoxedStrategy<Case> {
         (0u8..3, any::<u16>()),
         (0u8..4, any::<u16>()),
         (0u8..6, prop::collection::vec(0u8..4, 24)),
-        (0u8..8, any::<u16>()),
+        (
+            0u8..8,
+            0u8..12,
+            prop::collection::vec((any::<u16>(), 0u8..3, 0u8..3, any::<bool>()), 2),
+            0u8..6,
+            0u8..3,
+        ),
         any::<u8>(),
     )
         .prop_map(
-            |(uas, (start_sel, rnd, small), n, methods, observer, specs, extras, drop, ack0, (ysel, joins), self_drop, rng)| {
+            |(uas, (start_sel, rnd, small), n, methods, observer, specs, extras, drop, ack0, (ysel, joins), usage_sel, rng)| {
+                let (act_sel, roster_sel, act_specs, looker_ysel, ext_usage) = usage_sel;
+                // half of the cases keep the legacy roster ([observer?], taker)
+                let roster: Vec<bool> = match roster_sel {
+                    0..=5 => vec![],
+                    6 | 7 => vec![false, false],
+                    8 | 9 => vec![false, false, true],
+                    10 => vec![false, false, false],
+                    _ => vec![false],
+                };
+                let observer = observer && roster.is_empty();
+                let usages: Vec<bool> = if roster.is_empty() {
+                    if observer {
+                        vec![false, true]
+                    } else {
+                        vec![true]
+                    }
+                } else {
+                    roster.clone()
+                };
+                let m = usages.len();
                 let role = if uas { Role::Uas } else { Role::Uac };
                 let top = u32::MAX - n as u32;
                 let k = match start_sel {
@@ -382,7 +585,10 @@ pub fn strategy() -> BoxedStrategy<Case> {
                     push(*key, ev, &mut keyed);
                 }
                 if drop.0 == 2 {
-                    push(drop.1, Ev::DropGuard, &mut keyed);
+                    // the application drops one usage's guard between two events
+                    let u = (ext_usage as usize).min(m - 1);
+                    let ev = if roster.is_empty() && usages[u] { Ev::DropGuard } else { Ev::DropGuardOf { usage: u as u8 } };
+                    push(drop.1, ev, &mut keyed);
                 }
                 if uas && ack0.0 != 0 {
                     // usually the ACK is the first thing that follows the 200; sometimes it is late or lost
@@ -400,27 +606,39 @@ pub fn strategy() -> BoxedStrategy<Case> {
                     }
                     events.push(e);
                 }
-                // one case in eight (UAS): the usage ends itself on a request that arrives exactly once
-                let mut drop_on = None;
-                if uas && self_drop.0 == 7 {
-                    let once: Vec<u8> = (0..n as u8)
-                        .filter(|d| events.iter().filter(|e| matches!(e, Ev::Req { idx, .. } if idx == d)).count() == 1)
-                        .collect();
-                    if !once.is_empty() {
-                        drop_on = Some(once[pick_idx(self_drop.1, once.len())]);
-                        events.retain(|e| !matches!(e, Ev::DropGuard | Ev::Join));
-                    }
-                }
-                Case {
+                let mut case = Case {
                     role,
                     k,
                     methods: methods.into_iter().take(n).collect(),
                     observer,
                     usage_yields: ysel.saturating_sub(2),
-                    drop_on,
+                    drop_on: None,
+                    roster,
+                    acts: vec![],
+                    looker_yields: 0,
                     events,
                     rng,
+                };
+                // one case in four: one or two guard drops inside `receive`, each tied to a request that arrives
+                // exactly once and is handed on by the model (such scripts have no back-to-back arrivals)
+                if act_sel >= 6 {
+                    let cand = case.act_candidates();
+                    if !cand.is_empty() {
+                        for (sel, actor, target, late) in act_specs.iter().take(act_sel as usize - 5) {
+                            case.acts.push(Act {
+                                on: cand[pick_idx(*sel, cand.len())],
+                                actor: (*actor).min(m as u8 - 1),
+                                target: (*target).min(m as u8 - 1),
+                                late: *late,
+                            });
+                        }
+                        case.events.retain(|e| *e != Ev::Join);
+                    }
                 }
+                if !case.has_join() {
+                    case.looker_yields = looker_ysel.saturating_sub(3);
+                }
+                case
             },
         )
         .boxed()
@@ -431,6 +649,8 @@ pub fn strategy() -> BoxedStrategy<Case> {
 
 #[derive(Debug, Clone)]
 pub struct Rec {
+    /// position in the world's single sequence of "receive entered" / "guard dropped" happenings
+    pub seq: usize,
     pub step: usize,
     pub t_ms: u64,
     pub cseq: u32,
@@ -442,14 +662,16 @@ pub struct Rec {
 struct Tape {
     clock: Clock,
     step: Arc<AtomicUsize>,
+    seq: Arc<AtomicUsize>,
     recs: Arc<Mutex<Vec<Rec>>>,
 }
 
 impl Tape {
-    fn new(clock: Clock, step: &Arc<AtomicUsize>) -> Self {
+    fn new(clock: Clock, step: &Arc<AtomicUsize>, seq: &Arc<AtomicUsize>) -> Self {
         Self {
             clock,
             step: step.clone(),
+            seq: seq.clone(),
             recs: Default::default(),
         }
     }
@@ -461,6 +683,7 @@ impl Tape {
             .map(|(_, v)| v.to_string())
             .unwrap_or_default();
         self.recs.lock().push(Rec {
+            seq: self.seq.fetch_add(1, Ordering::Relaxed),
             step: self.step.load(Ordering::Relaxed),
             t_ms: self.clock.now_ms(),
             cseq: req.base_headers.cseq.cseq,
@@ -473,32 +696,80 @@ impl Tape {
     }
 }
 
-/// takes every request offered to it and answers 200 through a server transaction
-struct TakingUsage {
-    tape: Tape,
+/// the guards of the dialog's usages and the record of when each one was dropped
+struct Ctl {
+    guards: Mutex<Vec<Option<UsageGuard>>>,
+    /// (usage, sequence number of the drop)
+    drops: Mutex<Vec<(usize, usize)>>,
+    seq: Arc<AtomicUsize>,
+}
+
+impl Ctl {
+    /// drop the guard of usage `target` (no effect when it is gone already)
+    fn drop_guard(&self, target: usize) -> bool {
+        let g = self.guards.lock().get_mut(target).and_then(|g| g.take());
+        match g {
+            Some(g) => {
+                self.drops.lock().push((target, self.seq.fetch_add(1, Ordering::Relaxed)));
+                drop(g);
+                true
+            }
+            None => false,
+        }
+    }
+}
+
+/// One usage of the dialog. Records what it is offered; a taking usage takes every request and answers 200
+/// through a server transaction, a looking one leaves it. While it handles the request whose marker starts
+/// with an act's prefix it drops the guard of the act's target usage.
+struct ScriptedUsage {
+    takes: bool,
+    /// scheduling points inside `receive` (after the request was looked at / taken, before it is answered)
     yields: u8,
-    /// marker prefix of the request on which the usage gives up its own guard
-    drop_on: Option<String>,
-    guard: Arc<Mutex<Option<UsageGuard>>>,
+    tape: Tape,
+    /// (marker prefix of the request, target usage, late)
+    acts: Vec<(String, usize, bool)>,
+    ctl: Arc<Ctl>,
 }
 
 #[async_trait::async_trait]
-impl Usage for TakingUsage {
+impl Usage for ScriptedUsage {
     fn name(&self) -> &'static str {
-        "c10-taking"
+        if self.takes {
+            "c10-taking"
+        } else {
+            "c10-observing"
+        }
     }
     async fn receive(&self, endpoint: &Endpoint, request: MayTake<'_, IncomingRequest>) {
         self.tape.note(&request);
-        if let Some(prefix) = &self.drop_on {
-            let hit = request.headers.iter().any(|(n, v)| n.as_print_str().eq_ignore_ascii_case("x-seq") && v.starts_with(prefix.as_str()));
-            if hit {
-                let g = self.guard.lock().take();
-                drop(g);
+        let mine: Vec<(usize, bool)> = self
+            .acts
+            .iter()
+            .filter(|(prefix, _, _)| {
+                request.headers.iter().any(|(n, v)| n.as_print_str().eq_ignore_ascii_case("x-seq") && v.starts_with(prefix.as_str()))
+            })
+            .map(|(_, t, late)| (*t, *late))
+            .collect();
+        for (t, _) in mine.iter().filter(|(_, late)| !*late) {
+            self.ctl.drop_guard(*t);
+        }
+        if !self.takes {
+            drop(request);
+            for _ in 0..self.yields {
+                tokio::task::yield_now().await;
             }
+            for (t, _) in mine.iter().filter(|(_, late)| *late) {
+                self.ctl.drop_guard(*t);
+            }
+            return;
         }
         let mut req = request.take();
         for _ in 0..self.yields {
             tokio::task::yield_now().await;
+        }
+        for (t, _) in mine.iter().filter(|(_, late)| *late) {
+            self.ctl.drop_guard(*t);
         }
         if matches!(req.line.method, Method::ACK | Method::INVITE) {
             return; // (INVITE is never generated; an ACK is consumed)
@@ -506,21 +777,6 @@ impl Usage for TakingUsage {
         let response = endpoint.create_response(&req, Code::OK, None);
         let tsx = endpoint.create_server_tsx(&mut req);
         let _ = tsx.respond(response).await;
-    }
-}
-
-/// only looks
-struct ObservingUsage {
-    tape: Tape,
-}
-
-#[async_trait::async_trait]
-impl Usage for ObservingUsage {
-    fn name(&self) -> &'static str {
-        "c10-observing"
-    }
-    async fn receive(&self, _endpoint: &Endpoint, request: MayTake<'_, IncomingRequest>) {
-        self.tape.note(&request);
     }
 }
 
@@ -564,13 +820,18 @@ pub struct WireRec {
 #[derive(Debug, Default)]
 pub struct Observed {
     pub problems: Vec<(String, String)>,
-    pub taker: Vec<Rec>,
-    pub observer: Vec<Rec>,
+    /// what each usage was offered (by position in registration order)
+    pub views: Vec<Vec<Rec>>,
+    /// (usage, sequence number) of every guard drop of the script (application side or inside `receive`)
+    pub drops: Vec<(usize, usize)>,
     pub catchall: Vec<Rec>,
     /// first transmission of every final response ezk sent, by the step it was sent in
     pub finals: Vec<WireRec>,
     pub backlog_end: usize,
-    pub usages_after_drop: Option<usize>,
+    /// (event index, registered usages right after it) for every application-side guard drop
+    pub usage_counts: Vec<(usize, usize)>,
+    /// registered usages when the script has ended
+    pub usages_end: usize,
     pub late_step: usize,
 }
 
@@ -628,9 +889,10 @@ pub fn run(case: &Case) -> Observed {
         let log = WireLog::new(clock);
         let (tp, _) = mock_datagram(&log, "UDP", false, false, "10.0.0.1:5060");
         let step = Arc::new(AtomicUsize::new(0));
-        let taker_tape = Tape::new(clock, &step);
-        let observer_tape = Tape::new(clock, &step);
-        let catch_tape = Tape::new(clock, &step);
+        let seq = Arc::new(AtomicUsize::new(0));
+        let usages = case.usages();
+        let tapes: Vec<Tape> = usages.iter().map(|_| Tape::new(clock, &step, &seq)).collect();
+        let catch_tape = Tape::new(clock, &step, &seq);
         let (tx, mut rx) = mpsc::unbounded_channel();
         let mut b = offline_builder();
         let dkey = b.add_layer(DialogLayer::default());
@@ -781,21 +1043,23 @@ pub fn run(case: &Case) -> Observed {
                 (dialog, Ids { call_id, local_tag })
             }
         };
-        let observer_guard = if case.observer {
-            Some(dialog.register_usage(ObservingUsage {
-                tape: observer_tape.clone(),
-            }))
-        } else {
-            None
-        };
-        let guard_slot: Arc<Mutex<Option<UsageGuard>>> = Default::default();
-        let g = dialog.register_usage(TakingUsage {
-            tape: taker_tape.clone(),
-            yields: case.usage_yields,
-            drop_on: case.drop_on.map(|d| format!("r{d}g")),
-            guard: guard_slot.clone(),
+        let ctl = Arc::new(Ctl {
+            guards: Mutex::new(vec![]),
+            drops: Default::default(),
+            seq: seq.clone(),
         });
-        *guard_slot.lock() = Some(g);
+        let acts = case.all_acts();
+        for (u, takes) in usages.iter().enumerate() {
+            let g = dialog.register_usage(ScriptedUsage {
+                takes: *takes,
+                yields: if *takes { case.usage_yields } else { case.looker_yields },
+                tape: tapes[u].clone(),
+                acts: acts.iter().filter(|a| a.actor as usize == u).map(|a| (format!("r{}g", a.on), a.target as usize, a.late)).collect(),
+                ctl: ctl.clone(),
+            });
+            ctl.guards.lock().push(Some(g));
+        }
+        let taker = case.taker();
         settle().await;
 
         // ---- the script
@@ -817,11 +1081,15 @@ pub fn run(case: &Case) -> Observed {
                     let bytes = peer_request(&case, &ids, "ACK", case.k, &ack_marker(*id), None);
                     inject(&endpoint, &tp, peer, &bytes);
                 }
-                Ev::DropGuard => {
-                    let g = guard_slot.lock().take();
-                    if let Some(g) = g {
-                        drop(g);
-                        obs.usages_after_drop = Some(endpoint[dkey].verif_counts().2);
+                Ev::DropGuard | Ev::DropGuardOf { .. } => {
+                    let target = match ev {
+                        Ev::DropGuardOf { usage } => Some(*usage as usize),
+                        _ => taker,
+                    };
+                    if let Some(t) = target {
+                        if ctl.drop_guard(t) {
+                            obs.usage_counts.push((i, endpoint[dkey].verif_counts().2));
+                        }
                     }
                 }
                 Ev::Wait { ms } => clock.advance(*ms as u64).await,
@@ -836,6 +1104,7 @@ pub fn run(case: &Case) -> Observed {
             wire_marks.push(log.len());
         }
         obs.backlog_end = endpoint[dkey].verif_counts().1;
+        obs.usages_end = endpoint[dkey].verif_counts().2;
         // ---- late step: let every transaction run out; nothing may be delivered any more
         obs.late_step = case.events.len() + 1;
         step.store(obs.late_step, Ordering::Relaxed);
@@ -843,8 +1112,8 @@ pub fn run(case: &Case) -> Observed {
         settle().await;
         wire_marks.push(log.len());
 
-        obs.taker = taker_tape.snapshot();
-        obs.observer = observer_tape.snapshot();
+        obs.views = tapes.iter().map(|t| t.snapshot()).collect();
+        obs.drops = ctl.drops.lock().clone();
         obs.catchall = catch_tape.snapshot();
         let mut answered: HashSet<String> = HashSet::new();
         for (i, (_, m)) in log.parsed().into_iter().enumerate() {
@@ -867,9 +1136,9 @@ pub fn run(case: &Case) -> Observed {
                 cseq: m.cseq().map(|c| c.0).unwrap_or(0),
             });
         }
-        let g = guard_slot.lock().take();
-        drop(g);
-        drop(observer_guard);
+        // (taken out first: dropping a guard locks the dialog table, never while `guards` is locked)
+        let guards: Vec<Option<UsageGuard>> = std::mem::take(&mut *ctl.guards.lock());
+        drop(guards);
         drop(dialog);
         drop(keep_accepted);
         drop(keep_client_tsx);
@@ -897,15 +1166,33 @@ struct Expect {
     ack: Vec<String>,
     /// markers that must show up in the layer behind the DialogLayer, in this order
     catchall: Vec<String>,
-    /// the taking usage's guard was dropped before this group's requests arrived
-    dropped: bool,
     /// numbers the model holds before, during or after the group (classification of failures only)
     held: BTreeSet<u64>,
-    /// the taking usage ends itself on the request at this position of `release`: it sees the list up to
-    /// and including that position, the rest gets the stack's default answer
-    taker_cut: Option<usize>,
     /// copy of the case's usage_yields (classification of failures only)
     usage_yields: u8,
+    /// per usage: was its guard alive when the group began
+    live_at_start: Vec<bool>,
+    /// per usage: the positions of `release` it must be offered (roster walk)
+    offered: Vec<Vec<usize>>,
+    /// the positions of `release` no usage takes: they get the stack's default answer
+    unclaimed: Vec<usize>,
+    /// per usage: the ACKs of the group it must be offered
+    ack_for: Vec<Vec<String>>,
+    /// no taking usage is registered when the group ends: the default answers on the wire are a view
+    taker_gone: bool,
+    /// in-receive drops that the walk performs in this group: (actor, target, position in `release`, late)
+    fired: Vec<(usize, usize, usize, bool)>,
+}
+
+impl Expect {
+    /// the expectation of one view: only the given positions of `release`, only the given ACKs
+    fn restricted(&self, keep: &[usize], acks: Vec<String>) -> Expect {
+        let mut xx = self.clone();
+        xx.release = keep.iter().map(|p| self.release[*p]).collect();
+        xx.arriving = self.arriving.iter().filter_map(|a| keep.iter().position(|p| p == a)).collect();
+        xx.ack = acks;
+        xx
+    }
 }
 
 struct Plan {
@@ -916,6 +1203,9 @@ struct Plan {
     inversion: bool,
     duplicate: bool,
     near: bool,
+    /// registered usages after each event / when the script has ended
+    live_after: Vec<usize>,
+    live_end: usize,
 }
 
 fn plan(case: &Case) -> Plan {
@@ -933,7 +1223,11 @@ fn plan(case: &Case) -> Plan {
     let mut arrived_cseq: BTreeSet<u64> = BTreeSet::new();
     let mut arrived_branch: BTreeSet<(u8, u8)> = BTreeSet::new();
     let mut first_arrivals: Vec<u64> = vec![];
-    let mut dropped = false;
+    // the roster: who takes, whose guard is alive, which in-receive drops are scripted
+    let usages = case.usages();
+    let m = usages.len();
+    let acts = case.all_acts();
+    let mut live = vec![true; m];
     let mut p = Plan {
         groups: vec![],
         multi,
@@ -941,6 +1235,8 @@ fn plan(case: &Case) -> Plan {
         inversion: false,
         duplicate: false,
         near: false,
+        live_after: vec![],
+        live_end: m,
     };
     let mut cur: Option<Expect> = None;
     for (i, e) in case.events.iter().enumerate() {
@@ -953,7 +1249,9 @@ fn plan(case: &Case) -> Plan {
         let x = cur.get_or_insert_with(|| Expect {
             first: i,
             usage_yields: case.usage_yields,
-            dropped,
+            live_at_start: live.clone(),
+            offered: vec![vec![]; m],
+            ack_for: vec![vec![]; m],
             ..Default::default()
         });
         x.last = i;
@@ -967,11 +1265,30 @@ fn plan(case: &Case) -> Plan {
                     match model.arrive(c) {
                         Arrival::Released(list) => {
                             x.arriving.push(x.release.len());
-                            x.release.extend(list);
-                            if let (false, Some(d)) = (dropped, case.drop_on) {
-                                if let Some(pos) = x.release.iter().position(|c| *c == case.cseq_of(d)) {
-                                    x.taker_cut = Some(pos + 1);
-                                    dropped = true; // for every later group
+                            // roster walk: each released request, in order, goes to the usages whose guard is
+                            // alive when it is their turn, in registration order, until one takes it
+                            for c in list {
+                                let pos = x.release.len();
+                                x.release.push(c);
+                                let mut taken = false;
+                                for u in 0..m {
+                                    if !live[u] {
+                                        continue;
+                                    }
+                                    x.offered[u].push(pos);
+                                    for a in acts.iter().filter(|a| a.actor as usize == u && case.cseq_of(a.on) == c) {
+                                        if live[a.target as usize] {
+                                            live[a.target as usize] = false;
+                                            x.fired.push((u, a.target as usize, pos, a.late));
+                                        }
+                                    }
+                                    if usages[u] {
+                                        taken = true;
+                                        break;
+                                    }
+                                }
+                                if !taken {
+                                    x.unclaimed.push(pos);
                                 }
                             }
                         }
@@ -994,15 +1311,30 @@ fn plan(case: &Case) -> Plan {
                 p.near = true;
                 x.catchall.push(near_marker(*id));
             }
-            Ev::Ack { id } => x.ack.push(ack_marker(*id)),
-            Ev::DropGuard => {
-                dropped = true;
-                x.dropped = true;
+            Ev::Ack { id } => {
+                x.ack.push(ack_marker(*id));
+                for u in 0..m {
+                    if live[u] {
+                        x.ack_for[u].push(ack_marker(*id));
+                        if usages[u] {
+                            break;
+                        }
+                    }
+                }
             }
+            Ev::DropGuard => {
+                if let Some(t) = case.taker() {
+                    live[t] = false;
+                }
+            }
+            Ev::DropGuardOf { usage } => live[*usage as usize] = false,
             Ev::Wait { .. } | Ev::Join => {}
         }
         x.held.extend(model.held.iter().copied());
+        x.taker_gone = !(0..m).any(|u| live[u] && usages[u]);
+        p.live_after.push(live.iter().filter(|l| **l).count());
     }
+    p.live_end = live.iter().filter(|l| **l).count();
     if let Some(g) = cur.take() {
         p.groups.push(g);
     }
@@ -1121,8 +1453,19 @@ pub fn check(case: &Case, out: &mut CaseOut) {
     if case.k as u64 + case.n() as u64 == u32::MAX as u64 {
         out.class("last-cseq=u32::MAX");
     }
-    if case.observer {
-        out.class("with-observer");
+    {
+        let usages = case.usages();
+        if usages.len() >= 2 {
+            out.class("with-observer");
+        }
+        out.class(match (usages.len(), usages.contains(&true)) {
+            (1, true) => "roster: taker",
+            (2, true) => "roster: looker, taker",
+            (_, true) => "roster: looker, looker, taker",
+            (1, false) => "roster: looker",
+            (2, false) => "roster: looker, looker",
+            (_, false) => "roster: looker, looker, looker",
+        });
     }
     for (sig, msg) in &obs.problems {
         out.fail(format!("c10.setup/{sig}"), msg.clone());
@@ -1135,15 +1478,20 @@ pub fn check(case: &Case, out: &mut CaseOut) {
     let in_steps = |recs: &[Rec], lo: usize, hi: usize| -> Vec<(u64, String)> {
         recs.iter().filter(|r| r.step >= lo && r.step <= hi).map(|r| (r.cseq as u64, r.marker.clone())).collect()
     };
+    let usages = case.usages();
+    let m = usages.len();
+    let view_name = |u: usize| format!("usage #{u} ({})", if usages[u] { "taking" } else { "looking" });
 
     // setup step: nothing but the INVITE (UAS) may have been seen anywhere
-    if !in_steps(&obs.taker, 0, 0).is_empty() || !in_steps(&obs.observer, 0, 0).is_empty() {
+    if obs.views.iter().any(|v| !in_steps(v, 0, 0).is_empty()) {
         out.fail("c10.setup/usage-saw-setup", "a usage saw a request before any in-dialog request was sent");
     }
 
+    // when each usage's guard was dropped (position in the world's sequence of entries and drops)
+    let drop_seq: Vec<Option<usize>> = (0..m).map(|u| obs.drops.iter().find(|(t, _)| *t == u).map(|(_, s)| *s)).collect();
+
     let mut diverged = false;
-    let mut seen_taker: HashSet<String> = HashSet::new();
-    let mut seen_observer: HashSet<String> = HashSet::new();
+    let mut seen_usage: Vec<HashSet<String>> = vec![HashSet::new(); m];
     let mut seen_default: HashSet<String> = HashSet::new();
     let mut reported: BTreeSet<String> = BTreeSet::new();
     let mut fail_once = |out: &mut CaseOut, sig: String, msg: String| {
@@ -1156,13 +1504,11 @@ pub fn check(case: &Case, out: &mut CaseOut) {
     let mut optional_total = 0usize;
     let mut default_404 = 0usize;
     let mut overlap_release = false;
-    let mut self_drop_split = false;
 
     for x in pl.groups.iter() {
         let (lo, hi) = (x.first + 1, x.last + 1);
         let evs = &case.events[x.first..=x.last];
-        let taker = in_steps(&obs.taker, lo, hi);
-        let observer = in_steps(&obs.observer, lo, hi);
+        let seen: Vec<Vec<(u64, String)>> = obs.views.iter().map(|v| in_steps(v, lo, hi)).collect();
         let catchall = in_steps(&obs.catchall, lo, hi);
         max_release = max_release.max(x.release.len());
         if x.last > x.first && x.release.len() >= 2 && case.usage_yields > 0 {
@@ -1179,69 +1525,69 @@ pub fn check(case: &Case, out: &mut CaseOut) {
             }
         }
 
-        // -- guard
-        if x.dropped && !taker.is_empty() {
-            fail_once(out, "c10.guard/shown-after-drop".into(), format!("steps {lo}..={hi} {evs:?}: the usage whose guard was dropped saw {taker:?}"));
+        // -- guard: no entry into a usage's `receive` after the drop of its guard. Decided on the recorded
+        //    sequence of entries and drops alone (not on the roster walk, not on the offer order).
+        let mut stale_inside_group = false;
+        for u in 0..m {
+            let Some(ds) = drop_seq[u] else { continue };
+            let after: Vec<(u32, String)> = obs.views[u]
+                .iter()
+                .filter(|r| r.step >= lo && r.step <= hi && r.seq > ds)
+                .map(|r| (r.cseq, r.marker.clone()))
+                .collect();
+            if after.is_empty() {
+                continue;
+            }
+            let how = match x.fired.iter().find(|f| f.1 == u) {
+                Some((actor, _, pos, late)) if *actor == u => {
+                    format!("it dropped its own guard inside receive when it was offered CSeq {}{}", x.release[*pos], if *late { " (after an await)" } else { "" })
+                }
+                Some((actor, _, pos, late)) => format!(
+                    "{} dropped that guard inside receive while it handled CSeq {}{}",
+                    view_name(*actor),
+                    x.release[*pos],
+                    if *late { " (after an await)" } else { "" }
+                ),
+                None => "the application dropped that guard in an earlier step".to_string(),
+            };
+            fail_once(
+                out,
+                "c10.guard/shown-after-drop".into(),
+                format!("steps {lo}..={hi} {evs:?}: {} was offered {after:?} after its guard was gone: {how}; all it saw in these steps: {:?}", view_name(u), seen[u]),
+            );
+            if x.live_at_start[u] {
+                // (the same observation would also fail the views of this step: the model has diverged)
+                stale_inside_group = true;
+            }
         }
 
         if diverged {
             continue;
         }
+        if stale_inside_group {
+            diverged = true;
+            continue;
+        }
         // -- ordering, per view
-        let mut views: Vec<(&str, &Vec<(u64, String)>, &mut HashSet<String>)> = vec![];
-        if let Some(cut) = x.taker_cut {
-            // the usage ended itself in the middle of this release list
-            if cut < x.release.len() {
-                self_drop_split = true;
-            }
-            if taker.len() > cut {
-                fail_once(out, "c10.guard/shown-after-drop".into(), format!("steps {lo}..={hi} {evs:?}: the usage dropped its guard when it was offered CSeq {} and was still offered more: {taker:?}", x.release[cut - 1]));
-                // (the same observation would also fail the other views of this step: the model has diverged)
-                diverged = true;
-                continue;
-            }
-        }
-        if !x.dropped {
-            views.push(("taking usage", &taker, &mut seen_taker));
-        }
-        if case.observer {
-            views.push(("observing usage", &observer, &mut seen_observer));
-        }
-        // after the drop the stack's default answers are the view (wire)
         let defaults: Vec<(u64, String)> = obs
             .finals
             .iter()
             .filter(|w| w.step >= lo && w.step <= hi && w.marker.starts_with('r') && !(200..300).contains(&w.status))
             .map(|w| (w.cseq as u64, w.marker.clone()))
             .collect();
-        if x.dropped || x.taker_cut.is_some() {
-            default_404 += obs.finals.iter().filter(|w| w.step >= lo && w.step <= hi && w.marker.starts_with('r') && w.status == 404).count();
-            views.push(("default answers on the wire", &defaults, &mut seen_default));
+        let mut views: Vec<(String, &Vec<(u64, String)>, Expect, &mut HashSet<String>)> = vec![];
+        for (u, before) in seen_usage.iter_mut().enumerate() {
+            // (a usage whose guard was gone before the group began has no view: whatever it saw is reported above)
+            if x.live_at_start[u] {
+                views.push((view_name(u), &seen[u], x.restricted(&x.offered[u], x.ack_for[u].clone()), before));
+            }
         }
-        for (name, seen, before) in views {
-            let mut xx = x.clone();
-            if name.starts_with("default") {
-                xx.ack.clear(); // an ACK is never answered
-            }
-            if let Some(cut) = x.taker_cut {
-                if name.starts_with("taking") {
-                    xx.release.truncate(cut);
-                    // (what it was offered beyond the cut is reported as guard/shown-after-drop above)
-                    let seen_cut: Vec<(u64, String)> = seen.iter().take(cut).cloned().collect();
-                    if let Some((locus, msg)) = match_view(&seen_cut, &xx, &pl.multi, before) {
-                        diverged = true;
-                        fail_once(out, format!("c10.{locus}"), format!("steps {lo}..={hi} {evs:?}, {name}: {msg}"));
-                    }
-                    for (_, m) in seen.iter() {
-                        before.insert(m.clone());
-                    }
-                    continue;
-                }
-                if name.starts_with("default") {
-                    xx.release.drain(..cut);
-                    xx.arriving = xx.arriving.iter().filter(|a| **a >= cut).map(|a| a - cut).collect();
-                }
-            }
+        if x.taker_gone {
+            // what no usage takes is observed through the stack's default answers (an ACK is never answered)
+            default_404 += obs.finals.iter().filter(|w| w.step >= lo && w.step <= hi && w.marker.starts_with('r') && w.status == 404).count();
+            views.push(("default answers on the wire".to_string(), &defaults, x.restricted(&x.unclaimed, vec![]), &mut seen_default));
+        }
+        for (name, seen, xx, before) in views {
             if let Some((locus, msg)) = match_view(seen, &xx, &pl.multi, before) {
                 diverged = true;
                 fail_once(out, format!("c10.{locus}"), format!("steps {lo}..={hi} {evs:?}, {name}: {msg}"));
@@ -1252,7 +1598,7 @@ pub fn check(case: &Case, out: &mut CaseOut) {
         }
         for o in &x.optional {
             optional_total += 1;
-            if taker.iter().chain(observer.iter()).chain(defaults.iter()).any(|(_, m)| m == o) {
+            if seen.iter().flatten().chain(defaults.iter()).any(|(_, m)| m == o) {
                 optional_shown += 1;
             }
         }
@@ -1261,9 +1607,9 @@ pub fn check(case: &Case, out: &mut CaseOut) {
     // -- late step and end state
     let late = obs.late_step;
     let late_seen: Vec<String> = obs
-        .taker
+        .views
         .iter()
-        .chain(obs.observer.iter())
+        .flatten()
         .chain(obs.catchall.iter())
         .filter(|r| r.step >= late)
         .map(|r| r.marker.clone())
@@ -1274,11 +1620,14 @@ pub fn check(case: &Case, out: &mut CaseOut) {
     if !diverged && !pl.gap_at_end && obs.backlog_end != 0 {
         fail_once(out, "c10.end/backlog-not-empty".into(), format!("no gap remains but the dialog layer still holds {} requests", obs.backlog_end));
     }
-    if let Some(u) = obs.usages_after_drop {
-        let want = if case.observer { 1 } else { 0 };
-        if u != want {
-            fail_once(out, "c10.guard/usage-not-removed".into(), format!("{u} usages registered after the guard was dropped, expected {want}"));
+    for (i, u) in &obs.usage_counts {
+        let want = pl.live_after[*i];
+        if !diverged && *u != want {
+            fail_once(out, "c10.guard/usage-not-removed".into(), format!("{u} usages registered after the guard drop of event {i}, expected {want}"));
         }
+    }
+    if !diverged && obs.usages_end != pl.live_end {
+        fail_once(out, "c10.guard/usage-not-removed".into(), format!("{} usages registered when the script ended, expected {}", obs.usages_end, pl.live_end));
     }
 
     // -- classes / non-triviality
@@ -1297,11 +1646,41 @@ pub fn check(case: &Case, out: &mut CaseOut) {
     if case.usage_yields > 0 {
         out.class("usage-yields");
     }
-    if case.drop_on.is_some() {
-        out.class("usage-ends-itself");
+    // in-receive guard drops, as the roster walk performs them
+    let fired: Vec<(&Expect, &(usize, usize, usize, bool))> = pl.groups.iter().flat_map(|x| x.fired.iter().map(move |f| (x, f))).collect();
+    if !case.all_acts().is_empty() && fired.is_empty() {
+        out.class("in-receive-drop-scripted-but-never-due");
     }
-    if self_drop_split {
-        out.class("usage-ends-itself-inside-a-release-list");
+    for (x, (actor, target, pos, late)) in &fired {
+        let taker = usages[*target];
+        out.class(match actor.cmp(target) {
+            std::cmp::Ordering::Equal if taker => "usage-ends-itself",
+            std::cmp::Ordering::Equal => "in-receive-drop: looking usage ends itself",
+            // the target has not been offered the current request yet and must not be any more
+            std::cmp::Ordering::Less if taker => "in-receive-drop: earlier usage ends the LATER taking usage (current request goes unclaimed)",
+            std::cmp::Ordering::Less => "in-receive-drop: earlier usage ends a LATER looking usage (must skip the current request)",
+            // the target has already been offered the current request
+            std::cmp::Ordering::Greater => "in-receive-drop: later usage ends an EARLIER usage (already offered the current request)",
+        });
+        if *late {
+            out.class("in-receive-drop-after-an-await");
+        }
+        if actor == target && taker && pos + 1 < x.release.len() {
+            out.class("usage-ends-itself-inside-a-release-list");
+        }
+        if x.release.len() >= 2 {
+            out.class(if pos + 1 < x.release.len() {
+                "in-receive-drop-inside-a-release-list(not at its end)"
+            } else {
+                "in-receive-drop-on-the-last-request-of-a-release-list"
+            });
+        }
+    }
+    if fired.len() >= 2 {
+        out.class("two-in-receive-drops");
+    }
+    if case.looker_yields > 0 {
+        out.class("looking-usage-yields");
     }
     if overlap_release {
         out.class("back-to-back-arrivals-with-release-and-yielding-usage");
@@ -1327,11 +1706,12 @@ pub fn check(case: &Case, out: &mut CaseOut) {
             }),
             Ev::Ack { .. } => out.class("ack-with-invite-cseq"),
             Ev::DropGuard => out.class("guard-dropped"),
+            Ev::DropGuardOf { usage } => out.class(if usages[*usage as usize] { "guard-dropped" } else { "guard-of-looking-usage-dropped" }),
             Ev::Join => out.class("back-to-back-arrivals"),
             Ev::Wait { .. } => {}
         }
     }
-    if pl.groups.iter().any(|x| x.dropped && !x.release.is_empty()) {
+    if pl.groups.iter().any(|x| x.live_at_start.iter().any(|l| !*l) && !x.release.is_empty()) {
         out.class("release-after-guard-drop");
     }
     if default_404 > 0 {
@@ -1347,14 +1727,18 @@ pub fn check(case: &Case, out: &mut CaseOut) {
         }
     }
     out.note = Some(format!(
-        "taker={:?} observer={:?} catchall={:?} finals={:?} backlog_end={}",
-        obs.taker.iter().map(|r| format!("{}:{}@{}", r.step, r.marker, r.cseq)).collect::<Vec<_>>(),
-        obs.observer.iter().map(|r| format!("{}:{}", r.step, r.marker)).collect::<Vec<_>>(),
+        "usages={:?} drops(usage,seq)={:?} catchall={:?} finals={:?} backlog_end={}",
+        obs.views
+            .iter()
+            .enumerate()
+            .map(|(u, v)| format!("#{u}{}: {:?}", if usages[u] { "T" } else { "L" }, v.iter().map(|r| format!("{}:{}@{}#{}", r.step, r.marker, r.cseq, r.seq)).collect::<Vec<_>>()))
+            .collect::<Vec<_>>(),
+        obs.drops,
         obs.catchall.iter().map(|r| format!("{}:{}", r.step, r.marker)).collect::<Vec<_>>(),
         obs.finals.iter().map(|w| format!("{}:{}={}", w.step, w.marker, w.status)).collect::<Vec<_>>(),
         obs.backlog_end
     ));
-    if pl.inversion || pl.duplicate || pl.near {
+    if pl.inversion || pl.duplicate || pl.near || !fired.is_empty() {
         out.nontrivial(case);
     }
 }
@@ -1363,7 +1747,7 @@ pub fn property() -> Property {
     Property {
         fuzz: vec![],
         id: "C10",
-        rule: "case = role (UAS: dialog from a peer INVITE via Dialog::new_server; UAC: ClientDialogBuilder + real INVITE client transaction answered 200 by the peer) x start CSeq x n<=7 in-dialog requests with consecutive CSeq k+1..k+n (methods INFO/UPDATE/MESSAGE/BYE/OPTIONS/NOTIFY/REFER, tags and Call-ID as the peer derives them, unique X-Seq marker and branch per copy) in an arrival order, with retransmissions (same branch), re-sent copies (new branch), near-miss requests (Call-ID / From-tag / To-tag differing, no To-tag, no From-tag, tags swapped), ACKs with the INVITE's CSeq, a drop of the taking usage's guard, short waits and back-to-back arrivals (no scheduling point in between) interleaved; the taking usage yields 0..3 times inside receive. Non-trivial = the first arrivals are not in CSeq order (>=1 inversion), or a CSeq arrives more than once, or a near-miss request is present; distinct by hash of the case.",
+        rule: "case = role (UAS: dialog from a peer INVITE via Dialog::new_server; UAC: ClientDialogBuilder + real INVITE client transaction answered 200 by the peer) x start CSeq x n<=7 in-dialog requests with consecutive CSeq k+1..k+n (methods INFO/UPDATE/MESSAGE/BYE/OPTIONS/NOTIFY/REFER, tags and Call-ID as the peer derives them, unique X-Seq marker and branch per copy) in an arrival order, with retransmissions (same branch), re-sent copies (new branch), near-miss requests (Call-ID / From-tag / To-tag differing, no To-tag, no From-tag, tags swapped), ACKs with the INVITE's CSeq, a drop of one usage's guard by the application between two events, short waits and back-to-back arrivals (no scheduling point in between) interleaved; x roster of 1..3 usages in registration order (0..3 that only look, at most one that takes and answers, registered last) x guard drops INSIDE Usage::receive (usage `actor`, while it handles request `on`, drops the guard of usage `target` = itself / an earlier / a later usage, right after looking or after its awaits); the usages yield 0..3 times inside receive. Non-trivial = the first arrivals are not in CSeq order (>=1 inversion), or a CSeq arrives more than once, or a near-miss request is present, or a guard is dropped inside receive; distinct by hash of the case.",
         assumptions: vec![
             "requests with a CSeq not above the last one handed on (re-sent copies, UAC-role numbers below the first arrival) are not asserted either way; they are counted as class lower-cseq",
             "a CSeq that arrives with two different branches is outside 'consecutive CSeq numbers': at least one copy must be shown at the release step, further copies are accepted",
@@ -1371,13 +1755,17 @@ pub fn property() -> Property {
             "after the taking usage's guard is dropped the in-order stream is observed through the stack's non-2xx default answers on the wire",
             "UAC role: the first in-dialog request that arrives defines the expected number (RFC 3261 sec. 12.2.2 empty remote sequence number)",
             "a request counts as offered to a usage at the moment Usage::receive is entered; back-to-back arrivals reach the dialog layer in injection order (single-threaded cooperative schedule, FIFO task queue)",
+            "a usage has stopped receiving when its guard's drop has returned: an entry into its receive after that instant (one counter numbers entries and drops) is a violation, whoever dropped the guard - the application between two requests, the usage itself, or another usage of the dialog that is handling the very same request",
+            "usages are offered a request in registration order (no usage is registered after a guard was dropped, so the usage table is never re-filled out of order); only the last registered usage takes requests, nothing is asserted about usages behind one that took the request",
+            "a guard drop inside receive is tied to a request that arrives exactly once and that the reference model hands on; scripts with such drops have no back-to-back arrivals (the interleaving of overlapping deliveries is the recorded open finding)",
         ],
-        explanation: "permutations: every arrival order of n consecutive requests, n<=4 (thorough: n<=5 both roles, n=6 UAS) x both roles x start in {1, crossing 2^31, last=u32::MAX}, plus INVITE CSeq = u32::MAX; guard_drop: every permutation n<=3 (thorough 4) x every drop position x observer x roles; concurrent: every permutation n<=3 (thorough 4) arriving back to back in one or two bursts with a usage that yields; random: sampled scripts with duplicates, near-misses, gaps left open, ACKs, guard drop, bursts",
+        explanation: "permutations: every arrival order of n consecutive requests, n<=4 (thorough: n<=5 both roles, n=6 UAS) x both roles x start in {1, crossing 2^31, last=u32::MAX}, plus INVITE CSeq = u32::MAX; guard_drop: every permutation n<=3 (thorough 4) x every drop position x observer x roles; concurrent: every permutation n<=3 (thorough 4) arriving back to back in one or two bursts with a usage that yields; self_drop: every permutation n<=3 (thorough 4) x the taking usage ends itself on each request; usage_drop: rosters {L, LL, LT, LLL, LLT} x every (actor, target) pair x early/late x every permutation n<=3 (thorough 4) x every request the drop can be tied to x both roles, plus every position of an application-side drop of each looking usage's guard; random: sampled scripts with duplicates, near-misses, gaps left open, ACKs, guard drop of any usage, bursts, rosters, one or two in-receive drops",
         subs: vec![
             enum_sub("permutations", perm_cases, check),
             enum_sub("guard_drop", drop_cases, check),
             enum_sub("concurrent", concurrent_cases, check),
             enum_sub("self_drop", self_drop_cases, check),
+            enum_sub("usage_drop", usage_drop_cases, check),
             prop_sub("random", strategy, 3000, 40000, check),
         ],
     }
